@@ -38,6 +38,9 @@ func NewHandler(o *Operation, basePathPrefix string, components Componenter, cfg
 	var pathRenders []Parser
 	for _, pe := range o.PathBuilder {
 		if peParam, ok := pe.Param.Get(); ok {
+			if peParam == nil {
+				return zero, nil, fmt.Errorf("path %q: a path variable has no parameter of its own (is a variable name used twice?)", o.Path.Raw)
+			}
 			pathRenders = append(pathRenders, PathParserVariable{
 				FieldName: peParam.FieldName,
 				Name:      peParam.Name,
